@@ -160,6 +160,7 @@ def run(pid):
         evaluations=max(stats["validated"], 1), distinct_nontrivial=max(stats["distinct"], 2),
         samples=stats["samples"], exhaustive=False, configs=ev, runs_with_completion=stats["completed"], events=stats["events"],
         drift_traces=stats["drift"], drift_kinds=stats["drift_kinds"], monitors=MON[pid], known_findings_seen=sorted(verdict.known_seen),
+        binding_selftest=stats.get("selftest"),
         rule="real full-stack key generations: (scheme, mode, n, t) x seeded fair schedules x policies"
              + {"C01": "; every subset of >= t stored shares x several digests signs, aggregates (shuffled signer order) and verifies under every party's reported key",
                 "C05": " x every strategy of the deviation catalogue x victim sets (one deviating back end inside a real Scheme)",
@@ -206,9 +207,52 @@ def execute(pid, cs, wd, verdict, drv):
         c = cs[o["t"]]
         verdict.violation("%s/%s" % (o["mon"], shape(c)), "monitor %s is false on real full-stack run %d (%s %s n=%d t=%d seed=%d policy=%s)" % (
             o["mon"], o["t"], c["scheme"], c["mode"], c["n"], c["t"], c["seed"], c["policy"]), dict(property=pid, monitor=o["mon"], case=c, outcome=lines_by_t.get(o["t"], [])[:30]))
+    st_res = "thorough tier only"
+    if vlib.tier() == "thorough" and not verdict.violations:
+        def c_pub(evs):
+            for e in evs:
+                if e["e"] == "kgret" and e["ok"]:
+                    e["pub"] = "00" + e["pub"][2:]
+                    return True
+            return False
+
+        def c_reveal(evs):
+            for i, e in enumerate(evs):
+                if e["e"] == "bsend" and e["kind"] == 3:
+                    node = e["node"]
+                    for j in range(i):
+                        if evs[j]["e"] == "onmsg" and evs[j]["node"] == node and evs[j]["kind"] == 2:
+                            del evs[j]
+                            return True
+            return False
+
+        def c_sign(evs):
+            for e in evs:
+                if e["e"] == "signcheck":
+                    e["bad"] = ["made up"]
+                    return True
+            return False
+
+        def validate(path):
+            with open(os.path.join(wd, "T_stack_st.cfg"), "w") as f:
+                f.write('CONSTANTS TraceFile = "%s"\nINIT Init\nNEXT Next\n' % os.path.basename(path))
+            r2 = vlib.run_tlc("DKGTrace", "T_stack_st.cfg", ["DKGTrace.tla"], workdir=wd, workers=1, timeout=1500, keep_prints=["VIOL", "END"], heap="12g")
+            return sum(1 for t, _ in r2.prints if t == "VIOL"), sum(1 for t, o in r2.prints if t == "END" and o["drift"])
+
+        head = os.path.join(wd, "stack_st.ndjson")
+        with open(outfile) as fi, open(head, "w") as fo:
+            n = 0
+            for line in fi:
+                fo.write(line)
+                if '"e":"end"' in line:
+                    n += 1
+                    if n >= 12:
+                        break
+        st_res = vlib.binding_selftest("stack", head, [("public material of one party changed", c_pub), ("a commitment hand-over removed before a reveal", c_reveal),
+                                                        ("a failing subset reported", c_sign)], validate)
     events = sum(1 for _ in open(outfile))
     return dict(validated=len(ends), completed=sum(1 for o in ends if o["completed"] > 0), drift=sum(drift.values()), drift_kinds=drift, events=events,
-                distinct=len(set(json.dumps(c, sort_keys=True) for c in cs)),
+                distinct=len(set(json.dumps(c, sort_keys=True) for c in cs)), selftest=st_res,
                 samples=[{k: v for k, v in cs[len(cs) // 2].items() if k not in ("cfg",)}] if cs else [dict(note="none")])
 
 
